@@ -216,7 +216,16 @@ func SameObject(a, b interface{}) bool {
 // Pause is a point where other goroutines get a chance to run (natively: a scheduler yield and a tiny random sleep).
 func Pause() {
 	runtime.Gosched()
-	time.Sleep(time.Duration(rand.Intn(200)) * time.Microsecond)
+	switch rand.Intn(4) {
+	case 0:
+	case 1:
+		for k := rand.Intn(200); k > 0; k-- {
+			runtime.Gosched()
+		}
+	default:
+		// timers are coarse on some machines (about a millisecond): spread the sleeps over several ticks
+		time.Sleep(time.Duration(rand.Intn(2500)) * time.Microsecond)
+	}
 }
 
 var harnessMu sync.Mutex
